@@ -22,5 +22,6 @@ CONSTANTS
   CRoot = 3
   DropLockBug = FALSE
   CachedLevelBug = FALSE
+  StaleParentReadBug = FALSE
 INVARIANTS JointSequential
 CHECK_DEADLOCK FALSE
